@@ -762,7 +762,20 @@ fn expr_edits(p: &Prog, e: &E, k: &mut usize) -> Option<E> {
     }
     match e {
         E::Int(_) | E::Bool(_) | E::Unit | E::Var(_) | E::None_ => {}
-        E::Host(f, a) => subv!(a, |nv| E::Host(*f, nv)),
+        E::Host(f, a) => {
+            // the call-site key (argument 0; argument 1 of the method) is never edited
+            let key = if *f == H_MIX { 1 } else { 0 };
+            for i in 0..a.len() {
+                if i == key {
+                    continue;
+                }
+                if let Some(n) = expr_edits(p, &a[i], k) {
+                    let mut nv = a.clone();
+                    nv[i] = n;
+                    return Some(E::Host(*f, nv));
+                }
+            }
+        }
         E::Call(f, a) => subv!(a, |nv| E::Call(*f, nv)),
         E::Ctor(v, a) => subv!(a, |nv| E::Ctor(*v, nv)),
         E::Record(a) => subv!(a, E::Record),
@@ -853,10 +866,94 @@ fn expr_edits(p: &Prog, e: &E, k: &mut usize) -> Option<E> {
     None
 }
 
+fn calls_in(e: &E, out: &mut Vec<usize>) {
+    if let E::Call(f, _) = e {
+        out.push(*f);
+    }
+    for c in children(e) {
+        calls_in(c, out);
+    }
+}
+
+fn renumber(e: &mut E, removed: usize) {
+    fn blk(b: &mut Blk, removed: usize) {
+        for s in &mut b.stmts {
+            match s {
+                S::Let(_, e) | S::Do(e) => renumber(e, removed),
+            }
+        }
+        if let Some(e) = &mut b.last {
+            renumber(e, removed);
+        }
+    }
+    match e {
+        E::Int(_) | E::Bool(_) | E::Unit | E::Var(_) | E::None_ => {}
+        E::Call(f, a) => {
+            if *f > removed {
+                *f -= 1;
+            }
+            a.iter_mut().for_each(|x| renumber(x, removed));
+        }
+        E::Host(_, a) | E::Ctor(_, a) | E::Record(a) | E::List(a) => a.iter_mut().for_each(|x| renumber(x, removed)),
+        E::Bin(_, l, r) | E::And(l, r) | E::Or(l, r) => {
+            renumber(l, removed);
+            renumber(r, removed);
+        }
+        E::Not(x) | E::Neg(x) | E::Assign(_, x) | E::CAssign(_, _, x) | E::Ret(x) | E::Accept(x) | E::Reject(x) | E::Try(x) | E::Some(x) | E::Field(x, _) => renumber(x, removed),
+        E::Ite(c, t, el) => {
+            renumber(c, removed);
+            blk(t, removed);
+            blk(el, removed);
+        }
+        E::If1(c, t) | E::While(c, t) | E::For(_, c, t) => {
+            renumber(c, removed);
+            blk(t, removed);
+        }
+        E::Match(s, _, arms) => {
+            renumber(s, removed);
+            for a in arms {
+                if let Some(g) = &mut a.guard {
+                    renumber(g, removed);
+                }
+                blk(&mut a.body, removed);
+            }
+        }
+        E::Block(b) => blk(b, removed),
+        E::FStr(ps) => {
+            for p in ps {
+                if let Part::Expr(e) = p {
+                    renumber(e, removed);
+                }
+            }
+        }
+    }
+}
+
 /// The `k`-th one-step simplification of the program (None: no more).
 pub fn edit(p: &Prog, k: usize) -> Option<Prog> {
     let mut k = k;
-    // drop a helper function that is not called (calls to later indices shift: only drop when uncalled)
+    // drop a helper function nobody calls (later functions are renumbered)
+    let mut called = vec![];
+    for f in &p.fns {
+        calls_in(&E::Block(f.body.clone()), &mut called);
+    }
+    for i in 0..p.fns.len() - 1 {
+        if !called.contains(&i) {
+            if k == 0 {
+                let mut np = p.clone();
+                np.fns.remove(i);
+                for f in &mut np.fns {
+                    let mut b = E::Block(std::mem::take(&mut f.body));
+                    renumber(&mut b, i);
+                    if let E::Block(nb) = b {
+                        f.body = nb;
+                    }
+                }
+                return Some(np);
+            }
+            k -= 1;
+        }
+    }
     for i in (0..p.fns.len()).rev() {
         let mut kk = k;
         if let Some(nb) = blk_edits(p, &p.fns[i].body, &mut kk, true) {
